@@ -52,10 +52,21 @@ pub fn gen_setup(r: &mut Rng, profile: Profile, max_k: u32) -> Setup {
     .min(max_k);
     // extra-large stream of C07 (release builds only): one big block, so that the U section of the
     // solver grows past one and two machine words on the dense back-end as well
-    let xl = profile == Profile::C07 && max_k >= 1000;
-    // (max_k >= 5000 selects the very large variant: 3000..max_k symbols, where the sparse
-    // back-end's dense tail grows past two machine words)
-    let k_target = if xl { r.range(if max_k >= 5000 { 3000 } else { 700 }, max_k as u64) as u32 } else { k_target };
+    // C07 streams with a forced block-size band (one block): 121..180 for the checked builds,
+    // 700..1300 and 3000..9000 for the release builds (selected by max_k)
+    let band_lo: Option<u32> = if profile != Profile::C07 {
+        None
+    } else if max_k >= 5000 {
+        Some(3000)
+    } else if max_k >= 1000 {
+        Some(700)
+    } else if max_k == 180 {
+        Some(121)
+    } else {
+        None
+    };
+    let xl = band_lo.is_some();
+    let k_target = if let Some(lo) = band_lo { r.range(lo as u64, max_k as u64) as u32 } else { k_target };
     let derived = r.chance(30, 100) && !xl;
     let mut with_defaults_mtu: Option<u16> = None;
     let mut oti: Option<Oti> = None;
@@ -128,7 +139,7 @@ pub fn gen_setup(r: &mut Rng, profile: Profile, max_k: u32) -> Setup {
             let z = if k_target > 150 { z.min(2) } else { z };
             let k_target = if z > 20 { k_target.min(6) } else if z > 4 { k_target.min(40) } else { k_target } as u64;
             let z = z.min((700 / k_target.max(1)).max(1));
-            let k_target = if xl { k_target.max(if max_k >= 5000 { 3000 } else { 700 }) } else { k_target };
+            let k_target = if let Some(lo) = band_lo { k_target.max(lo as u64) } else { k_target };
             let (t, al, n) = if z * k_target * t as u64 > 300_000 && !r.chance(1, 50) {
                 let t = *r.pick(&T_LIST);
                 let al = divisors_al(t, r);
